@@ -7,11 +7,24 @@
   The view is a `GoVal`: Go numbers for numbers (floats as IEEE bit patterns), strings for
   everything the tool prints as text.  Where text is shown the notation is fixed here, per type,
   as an injective notation of the abstract value: PostgreSQL's own output format where the tool follows
-  it (ISO dates and timestamps, `infinity`, `hh:mm:ss`, zone `+hh[:mm[:ss]]`, uuid, macaddr,
-  bit strings, `\x` hex bytea, `(block,offset)`, `%X/%X` LSNs, dotted IPv4, `[lo,hi)` ranges) and the tool's
-  notation where it has its own (`$-12.34` money, `1y 2mo 3d 4h 5m 6s` intervals with per-component
-  signs, uncompressed IPv6 groups, `%g` floats inside geometric values — carried as bit patterns, see
+  it (ISO dates and timestamps with fractional seconds `.ffffff` without trailing zeros, `infinity`,
+  `hh:mm:ss[.ffffff]`, zone `+hh[:mm[:ss]]`, uuid, macaddr, bit strings, `\x` hex bytea, `(block,offset)`,
+  `%X/%X` LSNs, dotted IPv4, `[lo,hi)` ranges) and the tool's notation where it has its own (`$-12.34` money,
+  `1y 2mo 3d 4h 5m 6.5s` intervals with per-component signs, uncompressed IPv6 groups, inet/cidr without the
+  prefix when it is the full width, `%g` floats inside geometric values — carried as bit patterns, see
   Types/FStr.lean — and unquoted range bounds).
+
+  What is written here from PostgreSQL's sources and NOT shared with the model (Model/Scalars.lean):
+  the calendar (`pgDate`: date2j-style day count; the model inverts it with Go's `time` algorithm),
+  the split of a time of day and of an interval into fields (`timeFields`, `intervalFields`: time2tm /
+  interval2itm, successive truncating division and subtraction; the model uses Go's `/` and `%`), the
+  fractional seconds (`fracText`: AppendSeconds + TrimTrailingZeros), the zone (`zoneText`: EncodeTimezone),
+  money from integer cents, uuid / macaddr grouping, the bit string from the abstract bits, IPv4 / IPv6 groups,
+  range_out.  What IS shared with the model is the neutral numeral library `PgVerif.Txt` (Types/Text.lean):
+  `decNat` / `decInt` (decimal numerals), `padNat` (zero-padded fixed width), `hexNat` / `hexPad` / `hexBytes`
+  (hexadecimal numerals), `joinBytes`, and the `%g` piece convention of Types/FStr.lean.  Those functions are
+  pinned down independently in Proofs/TxtNumerals.lean (value of the numeral = the number, canonical form,
+  uniqueness), so a wrong numeral function cannot satisfy the round-trip theorems silently.
 -/
 import PgVerif.Basic.Canon
 import PgVerif.Types.Text
@@ -80,9 +93,21 @@ def DateV.text : DateV → Bytes
   | .posInf => asc "infinity"
   | .negInf => asc "-infinity"
 
-/-- printed resolution: whole seconds -/
+/-- datetime.c:TrimTrailingZeros — the text without the `0` characters at its end -/
+def trimTrailingZeros : Bytes → Bytes
+  | [] => []
+  | c :: rest =>
+    match trimTrailingZeros rest with
+    | [] => if c == 48 then [] else [c]
+    | r => c :: r
+
+/-- the fraction of a second as PostgreSQL prints it (AppendSeconds with precision 6, then TrimTrailingZeros):
+nothing when zero, else `.` and the six digits of the microsecond count without the trailing zeros -/
+def fracText (usec : Nat) : Bytes := if usec = 0 then [] else [46] ++ trimTrailingZeros (padNat 6 usec)
+
+/-- PostgreSQL's ISO output: date, time of day, fractional seconds when there are any -/
 def TsV.text : TsV → Bytes
-  | .fin y m d hh mi ss _ => ymdText y m d ++ [32] ++ hmsText hh mi ss
+  | .fin y m d hh mi ss usec => ymdText y m d ++ [32] ++ hmsText hh mi ss ++ fracText usec
   | .posInf => asc "infinity"
   | .negInf => asc "-infinity"
 
@@ -341,7 +366,7 @@ def Val.wf : Val → Bool
   | .tid block off => block < 2 ^ 32 && off < 2 ^ 16
   | .float4 b => b < 2 ^ 32
   | .float8 b => b < 2 ^ 64
-  | .money c => -(10 ^ 15 : Int) < c && c < (10 ^ 15 : Int)
+  | .money c => inI 64 c
   -- the empty string never reaches a type decoder (the row reader reports it itself)
   | .text _ s => s.length ≥ 1 && utf8Valid s
   | .json d ws => d.wf && ws ≤ 2
@@ -380,12 +405,52 @@ def zoneText (zoneWest : Int) : Bytes :=
   [if zoneWest > 0 then 45 else 43] ++ padNat 2 (e / 3600) ++
     (if e % 3600 != 0 then [58] ++ padNat 2 (e / 60 % 60) ++ (if e % 60 != 0 then [58] ++ padNat 2 (e % 60) else []) else [])
 
-/-- interval notation: non-zero components of (years, months, days, hours, minutes, seconds), each
-with its own sign (division truncating toward zero, as PostgreSQL splits the fields), `0` if none -/
+/-- date.c:time2tm — hours, minutes, seconds and microseconds of a time of day, by successive division and
+subtraction -/
+def timeFields (us : Nat) : Nat × Nat × Nat × Nat :=
+  let h := us / 3600000000
+  let r := us - h * 3600000000
+  let m := r / 60000000
+  let r := r - m * 60000000
+  let sec := r / 1000000
+  (h, m, sec, r - sec * 1000000)
+
+/-- `hh:mm:ss[.ffffff]` (EncodeTimeOnly) -/
+def timeText (us : Nat) : Bytes :=
+  let f := timeFields us
+  hmsText f.1 f.2.1 f.2.2.1 ++ fracText f.2.2.2
+
+/-- timestamp.c:interval2itm — years, months, days, hours, minutes, seconds, microseconds; every division truncates
+toward zero (C), so all time fields carry the sign of `us` and year / month the sign of `months` -/
+structure IntervalFields where
+  year : Int
+  mon : Int
+  day : Int
+  hour : Int
+  min : Int
+  sec : Int
+  usec : Int
+deriving Repr, DecidableEq
+
+def intervalFields (months days us : Int) : IntervalFields :=
+  let y := months.tdiv 12
+  let h := us.tdiv 3600000000
+  let r := us - h * 3600000000
+  let mi := r.tdiv 60000000
+  let r := r - mi * 60000000
+  let sec := r.tdiv 1000000
+  { year := y, mon := months - y * 12, day := days, hour := h, min := mi, sec := sec, usec := r - sec * 1000000 }
+
+/-- interval notation (the tool's): the non-zero fields in the order years `y`, months `mo`, days `d`, hours `h`,
+minutes `m`, seconds `s`, separated by blanks, each with its own sign; the seconds carry their fraction
+(`-0.5s`, `6.25s`) and are present when seconds or microseconds are non-zero; `0` if no field is -/
 def intervalText (months days us : Int) : Bytes :=
-  let part (v : Int) (suffix : String) : List Bytes := if v != 0 then [decInt v ++ asc suffix] else []
-  let parts := part (months.tdiv 12) "y" ++ part (months.tmod 12) "mo" ++ part days "d" ++
-    part (us.tdiv 3600000000) "h" ++ part ((us.tdiv 60000000).tmod 60) "m" ++ part ((us.tdiv 1000000).tmod 60) "s"
+  let f := intervalFields months days us
+  let part (v : Int) (suffix : String) : List Bytes := if v = 0 then [] else [decInt v ++ asc suffix]
+  let secs : List Bytes :=
+    if f.sec = 0 ∧ f.usec = 0 then []
+    else [(if f.sec < 0 ∨ f.usec < 0 then [45] else []) ++ decNat f.sec.natAbs ++ fracText f.usec.natAbs ++ asc "s"]
+  let parts := part f.year "y" ++ part f.mon "mo" ++ part f.day "d" ++ part f.hour "h" ++ part f.min "m" ++ secs
   if parts.isEmpty then asc "0" else joinBytes [32] parts
 
 def ipv4Text (addr : Bytes) : Bytes := joinBytes [46] (addr.map fun b => decNat b.toNat)
@@ -422,8 +487,8 @@ def view : Val → GoVal
   | .bytea b => .str ([92, 120] ++ hexBytes b)
   | .bit _ bits => .str (bits.map fun b => if b then 49 else 48)
   | .date d => .str d.text
-  | .time us => .str (hmsText (us / 3600000000) (us / 60000000 % 60) (us / 1000000 % 60))
-  | .timetz us z => .str (hmsText (us / 3600000000) (us / 60000000 % 60) (us / 1000000 % 60) ++ zoneText z)
+  | .time us => .str (timeText us)
+  | .timetz us z => .str (timeText us ++ zoneText z)
   | .timestamp _ t => .str t.text
   | .interval months days us => .str (intervalText months days us)
   | .uuid b =>
@@ -456,6 +521,19 @@ def pgTypeNames : List (Nat × String) :=
    (1562, "varbit"), (1700, "numeric"), (2950, "uuid"), (3220, "pg_lsn"), (3614, "tsvector"),
    (3615, "tsquery"), (3802, "jsonb"), (3904, "int4range"), (3906, "numrange"), (3908, "tsrange"),
    (3910, "tstzrange"), (3912, "daterange"), (3926, "int8range"), (4072, "jsonpath")]
+
+/-- pg_type.typname of the 51 array types whose values DecodeType decodes (pg_type.dat, PostgreSQL 12–16): `_` followed by
+the element type's name -/
+def pgArrayTypeNames : List (Nat × String) :=
+  [(629, "_line"), (651, "_cidr"), (719, "_circle"), (775, "_macaddr8"), (791, "_money"), (1000, "_bool"), (1001, "_bytea"),
+   (1002, "_char"), (1003, "_name"), (1005, "_int2"), (1006, "_int2vector"), (1007, "_int4"), (1008, "_regproc"),
+   (1009, "_text"), (1010, "_tid"), (1011, "_xid"), (1012, "_cid"), (1014, "_bpchar"), (1015, "_varchar"), (1016, "_int8"),
+   (1017, "_point"), (1018, "_lseg"), (1019, "_path"), (1020, "_box"), (1021, "_float4"), (1022, "_float8"),
+   (1027, "_polygon"), (1028, "_oid"), (1040, "_macaddr"), (1041, "_inet"), (1115, "_timestamp"), (1182, "_date"),
+   (1183, "_time"), (1185, "_timestamptz"), (1187, "_interval"), (1231, "_numeric"), (1270, "_timetz"), (1561, "_bit"),
+   (1563, "_varbit"), (2951, "_uuid"), (3221, "_pg_lsn"), (3643, "_tsvector"), (3645, "_tsquery"), (3807, "_jsonb"),
+   (3905, "_int4range"), (3907, "_numrange"), (3909, "_tsrange"), (3911, "_tstzrange"), (3913, "_daterange"),
+   (3927, "_int8range"), (4073, "_jsonpath")]
 
 /-! ### classes of recorded findings (decided on the abstract value) -/
 
